@@ -494,21 +494,79 @@ static inline void locale_read(const char* what, uintptr_t pc) {
 
 extern "C" {
 
+// ---- allocator seam.  "Reuse mode" (a per-run knob of the plan): a freed block goes to a LIFO pool of its exact
+// size and is handed out again by the next allocation of that size, as a production allocator does.  ASan alone
+// never reuses an address within a short run (quarantine), which hides every bug that recognises an object by
+// its address (a cache validated by pointer comparison, ABA).  Pooled blocks are poisoned while free, so a
+// use-after-free is still reported (as use-after-poison), and a second free of a pooled block is reported here.
+extern "C" void __asan_poison_memory_region(void const volatile* addr, size_t size);
+extern "C" void __asan_unpoison_memory_region(void const volatile* addr, size_t size);
+}  // extern "C" (re-opened below)
+namespace xs {
+bool g_reuse_mode = false;
+static std::unordered_map<size_t, std::vector<void*>> g_pool;
+static std::unordered_set<void*> g_pooled;
+void reuse_reset(bool on) { g_reuse_mode = on; g_pool.clear(); g_pooled.clear(); }
+static void* pool_alloc(size_t n, bool zero) {
+  if (g_reuse_mode && n > 0 && n <= 8192) {
+    auto it = g_pool.find(n);
+    if (it != g_pool.end() && !it->second.empty()) {
+      void* p = it->second.back();
+      it->second.pop_back();
+      g_pooled.erase(p);
+      __asan_unpoison_memory_region(p, n);
+      memset(p, zero ? 0 : 0xbe, n);
+      return p;
+    }
+  }
+  return zero ? calloc(1, n) : malloc(n);
+}
+static void pool_free(void* p, size_t n, bool known) {
+  if (!p) return;
+  if (g_reuse_mode && !known && g_pooled.count(p)) {
+    violation("asan:double-free", site_of_pc((uintptr_t)__builtin_return_address(0)).c_str(), "block released twice (second free of a pooled block) during %s", t_task->cur_fn);
+    child_exit(0);
+  }
+  if (g_reuse_mode && known && n > 0 && n <= 8192) {
+    memset(p, 0xdd, n);
+    __asan_poison_memory_region(p, n);
+    g_pool[n].push_back(p);
+    g_pooled.insert(p);
+    return;
+  }
+  free(p);
+}
+}  // namespace xs
+extern "C" {
+
 void* xs_malloc(size_t n) {
   if (alloc_gate(n, "malloc")) return nullptr;
-  void* p = malloc(n);
+  void* p = pool_alloc(n, false);
   alloc_record(p, n, "malloc", RA0, ra1());
   return p;
 }
 void* xs_calloc(size_t a, size_t b) {
   if (alloc_gate(a * b, "calloc")) return nullptr;
-  void* p = calloc(a, b);
+  void* p = (a && b && a * b / b != a) ? nullptr : pool_alloc(a * b, true);
   alloc_record(p, a * b, "calloc", RA0, ra1());
   return p;
 }
 void* xs_realloc(void* old, size_t n) {
   if (alloc_gate(n, "realloc")) return nullptr;  // failed realloc leaves the old block intact
   uintptr_t s0 = RA0, s1 = ra1();
+  if (g_reuse_mode && old) {
+    auto it = g_live.find((uintptr_t)old);
+    if (it != g_live.end()) {
+      size_t osz = it->second.size;
+      if (n == 0) { alloc_forget(old, "realloc"); pool_free(old, osz, true); return nullptr; }
+      void* p = pool_alloc(n, false);
+      if (p) memcpy(p, old, osz < n ? osz : n);
+      alloc_forget(old, "realloc");
+      pool_free(old, osz, true);
+      alloc_record(p, n, "realloc", s0, s1);
+      return p;
+    }
+  }
   if (old) alloc_forget(old, "realloc");
   void* p = realloc(old, n);
   if (n == 0 && !p) return p;
@@ -518,14 +576,22 @@ void* xs_realloc(void* old, size_t n) {
 void xs_free(void* p) {
   SH->seam_calls++;
   if (p) sched_visible("free");
+  size_t sz = 0;
+  bool known = false;
+  if (p) {
+    auto it = g_live.find((uintptr_t)p);
+    if (it != g_live.end()) { sz = it->second.size; known = true; }
+  }
   alloc_forget(p, "free");
-  free(p);
+  pool_free(p, sz, known);
 }
 char* xs_strdup(const char* s) {
   size_t n = strlen(s);
   on_mem_access((uintptr_t)s, n + 1, false, RA0);
   if (alloc_gate(n + 1, "strdup")) return nullptr;
-  char* p = strdup(s);
+  char* p;
+  if (g_reuse_mode) { p = (char*)pool_alloc(n + 1, false); if (p) memcpy(p, s, n + 1); }
+  else p = strdup(s);
   alloc_record(p, n + 1, "strdup", RA0, ra1());
   return p;
 }
@@ -533,14 +599,24 @@ char* xs_strndup(const char* s, size_t len) {
   size_t n = strnlen(s, len);
   on_mem_access((uintptr_t)s, n, false, RA0);
   if (alloc_gate(n + 1, "strndup")) return nullptr;
-  char* p = strndup(s, len);
+  char* p;
+  if (g_reuse_mode) { p = (char*)pool_alloc(n + 1, false); if (p) { memcpy(p, s, n); p[n] = 0; } }
+  else p = strndup(s, len);
   alloc_record(p, n + 1, "strndup", RA0, ra1());
   return p;
+}
+static int vasprintf_pooled(char** out, const char* fmt, va_list ap) {
+  int r = vasprintf(out, fmt, ap);
+  if (r >= 0 && g_reuse_mode) {
+    char* q = (char*)pool_alloc((size_t)r + 1, false);
+    if (q) { memcpy(q, *out, (size_t)r + 1); free(*out); *out = q; }
+  }
+  return r;
 }
 int xs_vasprintf(char** out, const char* fmt, va_list ap) {
   locale_read("vasprintf", RA0);
   if (alloc_gate(0, "vasprintf")) return -1;
-  int r = vasprintf(out, fmt, ap);
+  int r = vasprintf_pooled(out, fmt, ap);
   if (r >= 0) alloc_record(*out, (size_t)r + 1, "vasprintf", RA0, ra1());
   return r;
 }
@@ -549,7 +625,7 @@ int xs_asprintf(char** out, const char* fmt, ...) {
   if (alloc_gate(0, "asprintf")) return -1;
   va_list ap;
   va_start(ap, fmt);
-  int r = vasprintf(out, fmt, ap);
+  int r = vasprintf_pooled(out, fmt, ap);
   va_end(ap);
   if (r >= 0) alloc_record(*out, (size_t)r + 1, "asprintf", RA0, ra1());
   return r;
